@@ -104,7 +104,11 @@ SEAMS = [
     ("gasol_asm", "block_has_been_optimized"),
 ]
 EXCS = {"Exception": Exception, "ValueError": ValueError, "KeyError": KeyError, "RecursionError": RecursionError,
-        "MemoryError": MemoryError, "AssertionError": AssertionError}
+        "MemoryError": MemoryError, "AssertionError": AssertionError,
+        # payload shapes the tool's own code raises: no argument at all (bare `raise ValueError`), a message plus a
+        # code (`Exception("Error in RBR generation", 4)`), a non-string argument (`KeyError(3)`)
+        "ValueError()": (ValueError, ()), "Exception(msg,code)": (Exception, ("Error in RBR generation", 4)),
+        "KeyError(int)": (KeyError, (3,)), "AssertionError()": (AssertionError, ())}
 
 
 def fault_docs():
@@ -170,7 +174,10 @@ class Injector:
             self.calls[si] = self.calls.get(si, 0) + 1
             if self.plan and self.plan[0] == si and self.plan[1] == self.calls[si]:
                 self.fired = True
-                raise self.plan[2]("injected fault at %s call %d" % (SEAMS[si][1], self.calls[si]))
+                exc = self.plan[2]
+                if isinstance(exc, tuple):
+                    raise exc[0](*exc[1])
+                raise exc("injected fault at %s call %d" % (SEAMS[si][1], self.calls[si]))
             return f(*a, **k)
         return g
 
@@ -291,7 +298,8 @@ def main(tier, seed, only=None):
     # ---- (b)
     if not only or only == "b":
         cfg_b = [("-greedy",)] if tier == "quick" else [("-greedy",), ("-greedy", "-storage"), ("-greedy", "-size")]
-        exc_names = ["Exception", "RecursionError", "MemoryError"] if tier == "quick" else list(EXCS)
+        exc_names = (["Exception", "RecursionError", "MemoryError", "ValueError()", "Exception(msg,code)", "KeyError(int)"]
+                     if tier == "quick" else list(EXCS))
         for cfg in cfg_b:
             for di, doc in enumerate(fault_docs()):
                 # 1. baseline in its own child: learn how many times each seam is called
